@@ -4,6 +4,9 @@
 //!   mc replay <file>
 
 mod engine;
+mod bfs;
+mod bfs_exec;
+mod bfs_model;
 mod c03;
 mod c04;
 mod c05;
@@ -32,7 +35,7 @@ pub struct PropDef {
 }
 
 fn registry() -> Vec<PropDef> {
-    vec![sweep_parse::c01(), sweep_parse::c02(), c03::def(), c04::def(), c05::def(), c06::def(), c07::def()]
+    vec![sweep_parse::c01(), sweep_parse::c02(), c03::def(), c04::def(), c05::def(), c06::def(), c07::def(), bfs::c08(), bfs::c09(), bfs::c10()]
 }
 
 fn find(id: &str) -> PropDef {
